@@ -3,6 +3,7 @@ package main
 // Evaluation of spec expressions.  Arithmetic is mathematical (no wrap).
 
 import (
+	"os"
 	"fmt"
 	"go/constant"
 	"go/token"
@@ -171,6 +172,18 @@ func (f *Frame) lookupVar(name string, pos token.Pos) types.Object {
 	_, obj := sc.LookupParent(name, pos)
 	if v, ok := obj.(*types.Var); ok {
 		return v
+	}
+	// a position at the very end of the last statement of a case clause lies outside the clause's
+	// scope (scope extents are half-open): look from the last position inside the statement
+	if sc2 := f.pkg.Types.Scope().Innermost(pos - 1); sc2 != nil && sc2 != sc {
+		if _, obj := sc2.LookupParent(name, pos-1); obj != nil {
+			if v, ok := obj.(*types.Var); ok {
+				return v
+			}
+		}
+	}
+	if os.Getenv("GOVC_DEBUG_LOOKUP") != "" {
+		fmt.Fprintf(os.Stderr, "lookupVar(%q) at %s: scope %v -> %v\n", name, f.in.W.Fset.Position(pos), sc, obj)
 	}
 	return nil
 }
